@@ -194,13 +194,15 @@ MEMBER_CHOICES = ("absent", "plain", "pre", "post", "both")
 
 def hier_program(ids: Ids, rng, shape: List[List[int]], kind: str, is_async: bool, choices: Optional[List[str]] = None,
                  allow_reject: bool = False, inv_prob: float = 0.3, max_conj: int = 2, forms=None, errs=None,
-                 with_snaps: bool = True, avoid_mixed: bool = False, dbc_root: bool = True, avoid_copy_shadow: bool = True) -> Dict[str, Any]:
+                 with_snaps: bool = True, avoid_mixed: bool = False, dbc_root: bool = True, avoid_copy_shadow: bool = True,
+                 inv_check_ons=("CALL", "CALL", "DEFAULT", "ALL", "SETATTR")) -> Dict[str, Any]:
     """One hierarchy (classes K<n>) with one member of the given kind declared/overridden per ``choices``."""
     from vkit.model import Model  # pylint: disable=import-outside-toplevel
 
     base = ids.new("m")
     classes = []  # type: List[Dict[str, Any]]
     names = []  # type: List[str]
+    root_style = rng.choice(("dbc", "dbc", "metaclass", "mixin-metaclass"))
     key = member_name(kind, base)
     mkind = "method" if kind == "call" else kind
     for i, bases in enumerate(shape):
@@ -218,8 +220,10 @@ def hier_program(ids: Ids, rng, shape: List[List[int]], kind: str, is_async: boo
                 if kind in ("pset", "pdel"):
                     members.append(make_member(ids, rng, "pget", base, False, 0, 0, 0))
                 members.append(m)
-            invs = [make_inv(ids, rng, errs=errs) for _ in range(rng.randint(1, 2))] if rng.random() < inv_prob else []
+            invs = [make_inv(ids, rng, check_on=rng.choice(inv_check_ons), errs=errs) for _ in range(rng.randint(1, 2))] if rng.random() < inv_prob else []
             cls = chain_class(cname, [names[b] for b in bases], members, invs)
+            if not bases and dbc_root:
+                cls["root"] = root_style
             trial = {"funcs": [], "classes": classes + [cls]}
             model = Model(trial)
             if kind in ("init", "new") and invs and model.owner(cname, key) is None:
@@ -272,8 +276,7 @@ def effective_ids(model, cls: str, key: str) -> List[str]:
             out.append(c["id"])
     for c in model.eff_post(o, key):
         out.append(c["id"])
-    if model.wrapped_for_invariants(m):
-        for i in model.invs_on(cls, "CALL"):
-            out.append(i["id"])
+    for i in model.invs_around(cls, m):
+        out.append(i["id"])
     seen = set()
     return [x for x in out if not (x in seen or seen.add(x))]
